@@ -256,8 +256,8 @@ func init() { harness.Register(Prop{}) }
 
 func (Prop) ID() string { return "C12" }
 
-var valNames = []string{"a", "b", "m", "n", "x.y", "int64"}
-var tNames = []string{"ta", "tb", "int64", "string", "t.x"}
+var valNames = []string{"a", "b", "m", "n", "x.y", "int64", ".a", "a.", "."}
+var tNames = []string{"ta", "tb", "int64", "string", "t.x", ".t"}
 
 func (Prop) Gen(seed int64, tier string) *harness.Case {
 	r := harness.Rand(seed)
